@@ -476,7 +476,11 @@ func (x *Exec) builder(b int) *mocker.Builder {
 		x.builders = append(x.builders, nil)
 	}
 	if x.builders[b] == nil {
-		x.builders[b] = mocker.Create()
+		if b%2 == 1 {
+			x.builders[b] = mocker.New()
+		} else {
+			x.builders[b] = mocker.Create()
+		}
 	}
 	return x.builders[b]
 }
